@@ -482,6 +482,19 @@ def discharge_assert(body, bb, t):
             pass
         return ok, ("index < len derivable" if ok else "cannot derive index < len"), n
     if kind in ("div_zero", "rem_zero"):
+        # the assert carries the dividend; the divisor is the right operand of the Div / Rem that follows
+        dv = None
+        x = bb
+        for _ in range(4):
+            for st in body.blocks[x]["stmts"]:
+                if st["k"] == "assign" and st["rv"]["k"] == "bin" and st["rv"]["op"] in ("Div", "Rem") and dv is None:
+                    dv = body.operand_expr(st["rv"]["b"])
+            nx = body.succs[x]
+            if dv is not None or len(nx) != 1:
+                break
+            x = nx[0]
+        if dv is not None:
+            ops = [dv]
         c = const_int(ops[0])
         if c is not None and c != 0:
             return True, "constant non-zero divisor", 0
